@@ -594,6 +594,60 @@ class Graph:
                 self._edge((bid, len(el)), (s, 0), lab)
         self.entry_node = (self.entry, 0)
         self.exit_node = (self.exit, 0)
+        self._short_circuit()
+
+    def _short_circuit(self):
+        """clang evaluates `A && B` in two blocks and joins them in a third that holds the `&&` expression and branches on it (with
+        setAllAlwaysAdd the join is explicit). The short-circuit edge out of A's block ('A is false') enters that join, from where both
+        outcomes of the whole condition are statically reachable although only one is possible. Follow the determined value through
+        the join(s): the short-circuit edge is re-targeted to the successor the join takes for that value."""
+        nodes = self.fn.nodes
+        def same(cid, opid):
+            n = nodes.get(cid) if cid is not None else None
+            n = strip(n) if n is not None else None
+            while isnode(n) and n["k"] == "ParenExpr":
+                n = strip(n.get("sub") or (n.get("c") or [None])[0])
+            return isnode(n) and n.get("id") == opid
+        for bid, b in self.blocks.items():
+            if b.get("term") != "BinaryOperator" or b.get("termid") is None:
+                continue
+            op = nodes.get(b["termid"])
+            if not isnode(op) or op.get("op") not in ("&&", "||"):
+                continue
+            v = "F" if op["op"] == "&&" else "T"
+            src = (bid, len(b["el"]))
+            new_succ = []
+            for (tgt, lab) in self.succ.get(src, []):
+                if lab != v or tgt[1] != 0:
+                    new_succ.append((tgt, lab))
+                    continue
+                cur_op, cur = b["termid"], tgt
+                for _ in range(8):
+                    jb = self.blocks.get(cur[0])
+                    if jb is None or cur[1] != 0 or [e for e in jb["el"] if isinstance(e, int)] != [cur_op] or len(jb["el"]) != 1:
+                        break
+                    js = jb.get("succ") or []
+                    if len(js) != 2 or js[0] is None or js[1] is None or not same(jb.get("cond"), cur_op):
+                        break
+                    nxt = (js[0] if v == "T" else js[1], 0)
+                    if jb.get("term") == "BinaryOperator":
+                        outer = nodes.get(jb.get("termid"))
+                        if not isnode(outer) or outer.get("op") not in ("&&", "||"):
+                            break
+                        # the determined operand is the left operand of an outer logical operator
+                        if (outer["op"] == "&&" and v == "F") or (outer["op"] == "||" and v == "T"):
+                            cur_op, cur = jb["termid"], nxt   # the outer value is determined as well: keep following
+                            continue
+                        cur = nxt   # goes on to evaluate the outer right operand: nothing more is determined
+                        break
+                    cur = nxt
+                    break
+                new_succ.append((cur, lab))
+            self.succ[src] = new_succ
+        self.pred = defaultdict(list)
+        for a, outs in self.succ.items():
+            for (t_, lab) in outs:
+                self.pred[t_].append((a, lab))
 
     def _edge(self, a, b, lab):
         self.succ[a].append((b, lab))
